@@ -82,6 +82,8 @@ def _locate(binary_cfg, binary_base, opname, tier, opinfo):
         ja, jb = _json.loads(sa), _json.loads(sb)
     except Exception:
         ja = jb = {'in': [], 'got': []}
+    if ja['in'] != jb['in']:
+        raise G.EngineError(f"differential check of {opname}: the two builds enumerate different inputs at the same index ({ja['in']} vs {jb['in']}): the driver's own domain construction depends on the build, nothing can be concluded about GLM")
     return {'domain': d, 'index': idx, 'in': ja['in'], 'got_cfg': ja['got'], 'got_base': jb['got']}
 
 def run_differential(prop, spec, tier, known_ids, t0, args):
@@ -94,8 +96,10 @@ def _differential(prop, spec, tier):
     _CAP[0] = spec.get('cap')
     cfgs = spec['configs_thorough'] if tier == 'thorough' else spec['configs_quick']
     base = spec.get('baseline', 'default')
+    base_of = {c: spec.get('baseline_by_config', {}).get(c, base) for c in cfgs}      # a configuration built with another compiler is compared with a baseline of that compiler
+    bases = sorted(set(base_of.values()) | {base})
     jobs, meta = [], []
-    for c in [base] + cfgs:
+    for c in bases + [c for c in cfgs if c not in bases]:
         for (src, parts, libs, flags) in table:
             if c in spec.get('not_instantiable', {}).get(src, {}):
                 continue      # GLM itself does not compile in this cell (recorded with the diagnostic in the property table)
@@ -114,18 +118,19 @@ def _differential(prop, spec, tier):
         results = list(ex.map(one, zip(bins, meta)))
     basemap = {}
     for r in results:
-        if r['config'] == base:
+        if r['config'] in bases:
             for op in r['ops']:
-                basemap[(r['_src'], r['_part'], op['name'])] = (op, r)
+                basemap[(r['config'], r['_src'], r['_part'], op['name'])] = (op, r)
     kfl = [k for k in G.load_known() if k['property'] == prop]
     extra_viol, extra_known, compared, differing = [], [], 0, 0
     for r in results:
         # violations raised by the drivers' own oracles belong to other properties; here only the cross-configuration equality is judged
         r['violations'] = []; r['known'] = []
-        if r['config'] == base:
+        if r['config'] not in base_of:
             continue
+        base = base_of[r['config']]
         for op in r['ops']:
-            key = (r['_src'], r['_part'], op['name'])
+            key = (base, r['_src'], r['_part'], op['name'])
             if key not in basemap:
                 continue
             bop, br = basemap[key]; compared += 1
@@ -145,7 +150,8 @@ def _differential(prop, spec, tier):
                 v['kf'] = kid; extra_known.append(v)
             else:
                 extra_viol.append(v)
-    cov = {'uninstantiable_cells': {f'{s_} @ {c_}': why for s_, d_ in spec.get('not_instantiable', {}).items() for c_, why in d_.items()}, 'configurations_compared_with_baseline': cfgs, 'baseline': base, 'op_digests_compared': compared, 'op_digests_differing': differing,
+    base = spec.get('baseline', 'default')
+    cov = {'baseline_of_configuration': base_of, 'uninstantiable_cells': {f'{s_} @ {c_}': why for s_, d_ in spec.get('not_instantiable', {}).items() for c_, why in d_.items()}, 'configurations_compared_with_baseline': cfgs, 'baseline': base, 'op_digests_compared': compared, 'op_digests_differing': differing,
            'operation_table': [f"{s_}{'[parts ' + ','.join(map(str, p_)) + ']' if p_ is not None else ''}" for (s_, p_, l, f) in table]}
     return results, extra_viol, extra_known, cov
 
@@ -309,7 +315,7 @@ PROPS = {
    text='Reads: the index tuple is derived from the NAME (letter -> index) by macro pasting, independent of GLM; every valid name x tag patterns, compared bit for bit. Writes (explicit-state): all sequences of 14 write forms (=vec, =scalar, += -= *= /=, cross-swizzle and self-aliasing forms) over duplicate-free names, array reference model after every step, exactly the named components change. Constructors: 1236 (2598 with aligned types) vector signatures per destination type x value patterns that make static_cast observable, all 49 (U,T) cross-type pairs, cross-qualifier, matrix diagonal/scalars/columns/cross-type, quaternion forms; four build configurations (default, GLM_FORCE_SWIZZLE, intrinsics, operator swizzles).',
    rule='names: 28/117/336 per source length and letter set; write sequences depth <=3 (L2), <=2 (L3, L4) quick, L3 depth 3 thorough; constructor signatures enumerated by templates from the overload shapes; inadmissible (pattern, U, T) conversions are counted trivial.'),
  'C03': dict(run=run_c03, src='drivers/c03.cpp', level='exploration', part_list=[0, 1, 2, 3, 4, 5, 6, 7, 8, 9, 10, 11, 13],   # part 12 = raw glm_* kernels that no vec/mat/quat operation reaches: outside the statement
-   flags=['-DC03_TRY_ALL'], cap=20000, baseline='pure',
+   flags=['-DC03_TRY_ALL'], cap=20000, baseline='pure', baseline_by_config={'intr_sse2_clang': 'pure_clang'},
    configs_quick=['intr_sse2', 'intr_avx2_fma'],
    configs_thorough=['intr_sse2', 'intr_sse3', 'intr_ssse3', 'intr_sse41', 'intr_sse42', 'intr_avx', 'intr_avx2', 'intr_avx2_fma', 'intr_sse2_wxyz', 'intr_avx2_wxyz', 'intr_sse2_clang'],
    table_quick=[('drivers/c01.cpp', [0, 3, 5], [], ['-O1']), ('drivers/c12.cpp', None, [], []), ('drivers/c13.cpp', None, [], [])],
@@ -333,7 +339,7 @@ PROPS = {
  'C15': dict(run=run_differential, replay=replay_differential, level='exploration', src='drivers/c01.cpp', cap=20000,
    table_quick=_C15_TABLE_Q, table_thorough=_C15_TABLE_T,
    configs_quick=['cxx98', 'combo_types', 'combo_env', 'O0', 'O3'],
-   configs_thorough=['cxx98', 'cxx03', 'cxx11', 'cxx14', 'cxx17', 'cxx20', 'cxx_unknown', 'inline', 'ctor_init', 'explicit_ctor', 'size_t_length', 'xyzw_only', 'swizzle', 'swizzle_intr', 'unrestricted_gentype', 'quat_wxyz', 'pure', 'compiler_unknown', 'platform_unknown', 'arch_unknown', 'O0', 'O3', 'clang', 'clang_O0', 'combo_types', 'combo_env'],
+   configs_thorough=['cxx98', 'cxx03', 'cxx11', 'cxx14', 'cxx17', 'cxx20', 'cxx_unknown', 'inline', 'ctor_init', 'explicit_ctor', 'size_t_length', 'xyzw_only', 'swizzle', 'swizzle_intr', 'unrestricted_gentype', 'quat_wxyz', 'pure', 'compiler_unknown', 'platform_unknown', 'arch_unknown', 'O0', 'O3', 'clang_O0', 'clang_O3', 'combo_types', 'combo_env'], baseline_by_config={'clang_O0': 'clang', 'clang_O3': 'clang'},   # optimisation levels are compared within one compiler (the statement names the optimisation level, not the compiler)
    not_instantiable={'drivers/c19.cpp': {'xyzw_only': 'glm/gtx/color_space.inl and color_space_YCoCg.inl name the components .r .g .b, which GLM_FORCE_XYZW_ONLY removes: the header is ill-formed in this configuration', 'combo_types': 'contains GLM_FORCE_XYZW_ONLY (see xyzw_only)'}},
    technique='exhaustive differential exploration over the configuration lattice: the same operation table (the drivers of the other properties, with their complete quick/thorough input domains) is compiled once per non-semantic configuration and every per-operation observation digest must equal the baseline build; a differing digest is bisected to the first differing input',
    text='Every non-semantic macro / language level / optimisation level / compiler is one point of the configuration lattice and one separate build of the same driver sources from the working tree. Each driver op accumulates a digest of every value GLM returned on every enumerated input (C01: every scalar and vector result of every function x L x T x Q; C11/C14: the std-versus-fallback sensitive functions on the float lattices; integer, packing, quaternion and geometric drivers). Digest equality with the baseline is required for every (op, configuration); results are expressed through named members so storage-order switches are compared by value.',
